@@ -42,10 +42,11 @@ const (
 	KRand
 	KMapOrder
 	KCtxCancel
+	KLockAnn // a writer of an RWMutex announces itself: from here on new readers wait (sync.RWMutex is writer-preferring)
 )
 
 var kindNames = [...]string{"none", "start", "lock", "rlock", "unlock", "runlock", "load", "store", "send", "recv", "close",
-	"select", "sleep", "wgadd", "wgwait", "choose", "yield", "quiesce", "settle", "timer", "touch", "rand", "maporder", "ctxcancel"}
+	"select", "sleep", "wgadd", "wgwait", "choose", "yield", "quiesce", "settle", "timer", "touch", "rand", "maporder", "ctxcancel", "lockann"}
 
 func (k Kind) String() string { return kindNames[k] }
 
@@ -380,11 +381,13 @@ func (w *World) enabled(t *Thread) (bool, int) {
 		return false, 0
 	case KLock:
 		if p.rw != nil {
-			return !p.rw.w && p.rw.r == 0, 0
+			return p.rw.r == 0, 0
 		}
 		return !p.mu.locked, 0
+	case KLockAnn:
+		return !p.rw.ann, 0
 	case KRLock:
-		return !p.rw.w, 0
+		return !p.rw.ann, 0
 	case KSend:
 		c := p.ch
 		if c == nil {
